@@ -266,6 +266,15 @@ func c10(r *Run) {
 		c10ConnSide(r)
 	}
 
+	// ---- R7 the slot is given up before the descriptor number can be reused -----------------------
+	if w.Cfg.Name == "linux" || w.Cfg.Name == "darwin" {
+		fin := ro.finalizer
+		netClose := w.MustFn("(*netFD).Close")
+		for _, cs := range findIns(fin, func(i ssa.Instruction) bool { return isCall(i, netClose) }) {
+			r.precedes("C10.R7:free-slot-before-close-fd", "the finalizer waits for and releases the poller slot (Free -> unused() spins on the token) before it closes the descriptor: while the poller may still dispatch an already fetched event through the slot, the descriptor number cannot be reused by another connection", fin, cs, func(i ssa.Instruction) bool { return isCall(i, ro.opFree) }, nil, "operator.Free() dominates netFD.Close()")
+		}
+	}
+
 	// ---- R5 Control reads FD before inuse() --------------------------------------------------------
 	{
 		ctl := w.MustFn("(*defaultPoll).Control")
